@@ -84,20 +84,35 @@ KFRead == /\ Ev("read") /\ phase = "running"
           /\ Cur.hash # Cur.src_hash /\ InGap
           /\ ReadRest /\ kfUsed' = kfUsed \cup {[case |-> case, kf |-> "KF_C04_SeekGap"]}
 
-Target == IF Cur.kind = "start" THEN Cur.arg ELSE Max(0, cur + Cur.arg)
+\* kind "end" = SeekFrom::End(arg): the reader documents it as unsupported (it cannot know the source length); it is never
+\* REQUIRED to succeed, but whatever it answers must be consistent: Ok only with the exact target, Err without moving
+Target == IF Cur.kind = "start" THEN Cur.arg
+          ELSE IF Cur.kind = "end" THEN Max(0, hdr.src_len + Cur.arg)
+          ELSE Max(0, cur + Cur.arg)
 Seek == /\ Ev("seek") /\ phase = "running"
         /\ Target >= 0 /\ Target <= hdr.src_len                      \* driver domain
-        /\ ((Target >= cur /\ Target <= cur + avail) => Cur.ok)      \* inside the window handed out last: must succeed
+        /\ ((Cur.kind # "end" /\ Target >= cur /\ Target <= cur + avail) => Cur.ok)   \* inside the window handed out last: must succeed
         /\ (Cur.ok => Cur.result = Target)
         /\ cur' = (IF Cur.ok THEN Target ELSE cur) /\ avail' = 0
         /\ Track(0)
         /\ UNCHANGED <<case, phase, hdr, viol, kfUsed>>
+
+\* {"ev":"peek","at":p,"len":n,"hash":h,"src_hash":g,"capacity":c}: the accessors buffer() / capacity() between calls -
+\* what buffer() shows are the source bytes from the logical position on (any length), capacity() is the constructor's value
+PeekRest == /\ Cur.at = cur /\ Cur.at + Cur.len <= hdr.src_len
+            /\ Cur.capacity = hdr.capacity
+            /\ Track(0)
+            /\ UNCHANGED <<case, phase, hdr, cur, avail, viol>>
+Peek == /\ Ev("peek") /\ phase = "running" /\ Cur.hash = Cur.src_hash /\ PeekRest /\ UNCHANGED kfUsed
+KFPeek == /\ Ev("peek") /\ phase = "running" /\ Cur.hash # Cur.src_hash /\ InGap
+          /\ PeekRest /\ kfUsed' = kfUsed \cup {[case |-> case, kf |-> "KF_C04_SeekGap"]}
 
 End == /\ Ev("end") /\ phase = "running"
        /\ avail = 0 /\ cur = hdr.src_len                              \* everything was handed out
        /\ phase' = "ended" /\ UNCHANGED <<case, hdr, cur, avail, viol, pabs, gapEnd, kfUsed>>
 
 Matches == ENABLED Fill \/ ENABLED Consume \/ ENABLED Read \/ ENABLED Seek \/ ENABLED End \/ ENABLED KFFill \/ ENABLED KFRead
+           \/ ENABLED Peek \/ ENABLED KFPeek
 Reject == /\ l <= Len(Rec) /\ Cur.ev # "reset" /\ phase = "running" /\ ~Matches
           /\ PrintT(<<"CASE_REJECTED", case, l, ToJson([event |-> Cur, cur |-> cur, avail |-> avail, gapEnd |-> gapEnd, hdr |-> hdr])>>)
           /\ l' = l + 1 /\ phase' = "rejected" /\ viol' = viol \cup {case}
@@ -108,7 +123,7 @@ SkipRest == /\ l <= Len(Rec) /\ Cur.ev # "reset" /\ phase \in {"rejected", "ende
                                   ELSE UNCHANGED <<viol, phase>>
             /\ UNCHANGED <<case, hdr, cur, avail, pabs, gapEnd, kfUsed>>
 
-Next == Reset \/ Fill \/ KFFill \/ Consume \/ Read \/ KFRead \/ Seek \/ End \/ Reject \/ SkipRest
+Next == Reset \/ Fill \/ KFFill \/ Consume \/ Read \/ KFRead \/ Seek \/ Peek \/ KFPeek \/ End \/ Reject \/ SkipRest
 Spec == Init /\ [][Next]_vars
 
 AtEnd == l = Len(Rec) + 1
